@@ -378,15 +378,79 @@ pub struct ExploreStats {
 	pub violations: u64,
 }
 
+/// The unexplored alternatives along one executed path, expanded lazily (deepest first) so that the work stack
+/// holds one path per executed schedule instead of one vector per alternative.
+struct Node {
+	chosen: Vec<usize>,
+	ns: Vec<usize>,
+	lo: usize,
+	/// next alternative to hand out: position `i` (counting down to `lo`), alternative `alt` (1..ns[i]); alt 0 = exhausted
+	i: usize,
+	alt: usize,
+}
+
+impl Node {
+	fn new(chosen: Vec<usize>, ns: Vec<usize>, lo: usize) -> Option<Node> {
+		let mut n = Node { i: chosen.len(), alt: 0, chosen, ns, lo };
+		n.advance_pos();
+		if n.done() { None } else { Some(n) }
+	}
+	fn done(&self) -> bool {
+		self.alt == 0
+	}
+	/// move to the next (deeper first) position that has alternatives
+	fn advance_pos(&mut self) {
+		self.alt = 0;
+		while self.i > self.lo {
+			self.i -= 1;
+			if self.ns[self.i] > 1 {
+				self.alt = 1;
+				return;
+			}
+		}
+	}
+	fn next(&mut self) -> Vec<usize> {
+		let mut p: Vec<usize> = self.chosen[..self.i].to_vec();
+		p.push(self.alt);
+		self.alt += 1;
+		if self.alt >= self.ns[self.i] {
+			self.advance_pos();
+		}
+		p
+	}
+}
+
 struct Work {
-	stack: Vec<Vec<usize>>,
+	root: Option<Vec<usize>>,
+	stack: Vec<Node>,
 	inflight: usize,
+}
+
+impl Work {
+	fn pop(&mut self) -> Option<Vec<usize>> {
+		if let Some(r) = self.root.take() {
+			return Some(r);
+		}
+		let top = self.stack.last_mut()?;
+		let p = top.next();
+		if top.done() {
+			self.stack.pop();
+		}
+		Some(p)
+	}
 }
 
 /// Exhaustive DFS over choice sequences with at most `bound` non-default choices.
 pub fn explore<S: Scenario>(s: &S, cfg: &ExploreCfg, rep: &Reporter) -> ExploreStats {
 	install_hooks();
-	let work = Mutex::new(Work { stack: vec![vec![]], inflight: 0 });
+	// debugging aid: restrict a run to the scenarios whose name contains $VERIF_ONLY (the run is then reported as not exhaustive)
+	if let Ok(only) = std::env::var("VERIF_ONLY") {
+		if !s.name().contains(&only) {
+			rep.not_exhaustive("VERIF_ONLY filter in effect");
+			return ExploreStats { exhausted: true, ..Default::default() };
+		}
+	}
+	let work = Mutex::new(Work { root: Some(vec![]), stack: vec![], inflight: 0 });
 	let execs = AtomicU64::new(0);
 	let nodes = AtomicU64::new(0);
 	let transitions = AtomicU64::new(0);
@@ -405,7 +469,7 @@ pub fn explore<S: Scenario>(s: &S, cfg: &ExploreCfg, rep: &Reporter) -> ExploreS
 				loop {
 					let item = {
 						let mut w = work.lock().unwrap();
-						match w.stack.pop() {
+						match w.pop() {
 							Some(p) => {
 								w.inflight += 1;
 								Some(p)
@@ -428,11 +492,12 @@ pub fn explore<S: Scenario>(s: &S, cfg: &ExploreCfg, rep: &Reporter) -> ExploreS
 						continue;
 					}
 					let ex = run_one(s, &prefix, false);
+					crate::mem::backpressure();
 					let n = execs.fetch_add(1, Ordering::Relaxed) + 1;
 					if n >= cfg.max_execs || start.elapsed() > cfg.time_cap {
 						capped.store(true, Ordering::Relaxed);
 					}
-					let mut children = Vec::new();
+					let mut children: Option<Node> = None;
 					match ex.status {
 						Status::Diverged => {
 							divergences.fetch_add(1, Ordering::Relaxed);
@@ -453,14 +518,12 @@ pub fn explore<S: Scenario>(s: &S, cfg: &ExploreCfg, rep: &Reporter) -> ExploreS
 							transitions.fetch_add(ex.decisions.len() as u64, Ordering::Relaxed);
 							maxdepth.fetch_max(ex.decisions.len() as u64, Ordering::Relaxed);
 							if cfg.bound.map_or(true, |b| devs < b) {
-								// deepest alternatives first on the stack => DFS order
-								for i in prefix.len()..ex.decisions.len() {
-									for alt in 1..ex.decisions[i].n {
-										let mut p: Vec<usize> = ex.decisions[..i].iter().map(|d| d.chosen).collect();
-										p.push(alt);
-										children.push(p);
-									}
-								}
+								// deepest alternatives first => DFS order
+								children = Node::new(
+									ex.decisions.iter().map(|d| d.chosen).collect(),
+									ex.decisions.iter().map(|d| d.n).collect(),
+									prefix.len().min(ex.decisions.len()),
+								);
 							}
 							let oh = hash_of(&ex.obs.outcome);
 							outcomes.lock().unwrap().insert(oh);
@@ -504,9 +567,12 @@ pub fn explore<S: Scenario>(s: &S, cfg: &ExploreCfg, rep: &Reporter) -> ExploreS
 					let mut w = work.lock().unwrap();
 					if !capped.load(Ordering::Relaxed) {
 						w.stack.extend(children);
+					} else {
+						w.stack.clear();
 					}
 					w.inflight -= 1;
 				}
+				crate::mem::flush();
 			});
 		}
 	});
